@@ -39,6 +39,7 @@ const (
 	CatIllegal       = "illegal"        // an illegal call was accepted, or changed something (C10)
 	CatDeadTarget    = "deadtarget"     // a dead target was accepted (C05 and C10)
 	CatEvents        = "events"         // C11
+	CatEventValues   = "events.values"  // component values read inside a callback (C01, C11)
 	CatCacheDiff     = "cachediff"      // registered vs plain filter (C07)
 	CatBatchDiff     = "batchdiff"      // batch vs single (C08)
 	CatBatchQuery    = "batchquery"     // query returned by a Q variant (C08, C03)
